@@ -5,6 +5,7 @@ right quantity and one of whose arms goes straight to `throw error(<documented c
 Instances are enumerated from the repository (constructors of operation classes, `/` and `%` in
 the arithmetic policies, the terminal encoder, the value→edge encoder, the apply() wrappers, the
 iterator dereference) — each confirmed by reading."""
+import re
 from cfg import Graph, qmatch, show_path
 from core import Finding, RuleResult
 from frontend import AnalysisBroken, where, base_name
@@ -298,6 +299,11 @@ def rule_int_overflow(P):
         live = gh.reach([gh.entry])
         rets = [n for n in gh.nodes if n.kind == "ret" and n.id in live]
         consts = sorted(n.ev.get("const") for n in rets if n.ev.get("const") is not None)
+        if not consts:
+            # not a literal: fold the returned expression over 32-bit handles (msb(), intMin(), intMax(), shifts, ~, unary minus, casts)
+            folded = [_fold_handle_expr(P, n.ev.get("text") or "") for n in rets]
+            if folded and all(v is not None for v in folded):
+                consts = sorted(folded)
         iid = "terminal::%s folds to the documented bound" % bound
         # with sizeof(node_handle)==4 the live branch returns the 32-bit bound; clang's CFG prunes the dead arm or keeps both
         if consts == [val(32)]:
@@ -306,6 +312,39 @@ def rule_int_overflow(P):
             R.fail(iid, where(h), Finding(R.rule, h["file"], h["q"], "bound", "%s returns %s, expected %d (31-bit signed terminals)" % (bound, consts, val(32)), h["line"]))
     R.require_floor(6, "overflow-guard obligations")
     return R
+
+
+def _fold_handle_expr(P, text, depth=0):
+    """value of a constant expression over node_handle (32-bit two's complement), or None when it is not one of the recognised shapes"""
+    if depth > 4:
+        return None
+    t = re.sub(r"\s+", "", text.replace("this->", "").replace("MEDDLY::", "").replace("terminal::", ""))
+    t = t.replace("sizeof(node_handle)", "4").replace("node_handle(", "(")
+    t = re.sub(r"(?<=\d)[uUlL]+", "", t)
+    for fn in ("msb", "intMin", "intMax"):
+        if fn + "()" in t:
+            if fn == "msb":
+                v = -(1 << 31)
+            else:
+                h = P.find(M + "terminal::" + fn)[0]
+                gh = Graph(h)
+                live = gh.reach([gh.entry])
+                rets = [n for n in gh.nodes if n.kind == "ret" and n.id in live]
+                vs = set()
+                for n in rets:
+                    vs.add(n.ev["const"] if n.ev.get("const") is not None else _fold_handle_expr(P, n.ev.get("text") or "", depth + 1))
+                if len(vs) != 1 or None in vs:
+                    return None
+                v = vs.pop()
+            t = t.replace(fn + "()", "(%d)" % v)
+    if not re.fullmatch(r"[0-9()+\-*~|&<>]+", t):
+        return None
+    try:
+        v = eval(t, {"__builtins__": {}}, {})
+    except Exception:
+        return None
+    v &= 0xFFFFFFFF
+    return v - (1 << 32) if v & 0x80000000 else v
 
 
 def rule_edge_for_value(P):
